@@ -39,25 +39,8 @@ def make_error(spec):
                              headers=spec.get("headers") or None)
 
 
-def run_exchange(req, resp, max_rounds=60):
-    from ioflo.aid.odicting import odict
-    from ioflo.base import storing
-    from ioflo.aio.http import clienting, serving
-    net = fakenet.install()
-    store = storing.Store(stamp=0.0)
-    seen = []
-
-    def record(environ):
-        env = {}
-        for k, v in environ.items():
-            if k == 'wsgi.input':
-                env[k] = v.read()
-            elif k == 'wsgi.errors':
-                continue
-            else:
-                env[k] = v
-        seen.append(env)
-
+def make_wsgi(resp):
+    """the WSGI application answering as described by `resp`"""
     def genapp(environ, start_response):
         if resp["kind"] == 'error_gen':
             raise make_error(resp["error"])
@@ -106,7 +89,6 @@ def run_exchange(req, resp, max_rounds=60):
         return RaisingIterator(resp["pieces"])
 
     def app(environ, start_response):
-        record(environ)
         kind = resp["kind"]
         if kind == 'raise':
             if resp["style"] == 'gen':
@@ -123,29 +105,57 @@ def run_exchange(req, resp, max_rounds=60):
         if kind == 'empty':
             return []
         return list(resp["pieces"])
+    return app
+
+
+def run_sequence(pairs, max_rounds=60):
+    """pairs = [(req, resp), ...] sent one after the other on ONE keep-alive connection (the Valet
+    reuses its Requestant and Responder).  Returns one result dict per exchange (shape of
+    run_exchange's) plus, in each, the whole connection's wire bytes."""
+    from ioflo.aid.odicting import odict
+    from ioflo.base import storing
+    from ioflo.aio.http import clienting, serving
+    net = fakenet.install()
+    store = storing.Store(stamp=0.0)
+    seen = []
+    n = len(pairs)
+
+    def app(environ, start_response):
+        idx = min(len(seen), n - 1)
+        env = {}
+        for k, v in environ.items():
+            if k == 'wsgi.input':
+                env[k] = v.read()
+            elif k == 'wsgi.errors':
+                continue
+            else:
+                env[k] = v
+        seen.append(env)
+        return make_wsgi(pairs[idx][1])(environ, start_response)
 
     alpha = serving.Valet(port=PORT, bufsize=131072, store=store, app=app)
     assert alpha.servant.reopen()
     beta = clienting.Patron(bufsize=131072, store=store, hostname='127.0.0.1', port=PORT, reconnectable=True)
     assert beta.connector.reopen()
-    request = odict([('method', req["method"]), ('path', req["path"]),
-                     ('qargs', odict(req.get("qargs") or [])), ('fragment', u''),
-                     ('headers', odict(req.get("headers") or [])),
-                     ('body', req.get("body"))])
-    if req.get("data") is not None:
-        request['data'] = req["data"]
-    if req.get("fargs") is not None:
-        request['fargs'] = odict(req["fargs"])
     error = None
     try:
-        beta.requests.append(request)
+        for req, _ in pairs:
+            request = odict([('method', req["method"]), ('path', req["path"]),
+                             ('qargs', odict(req.get("qargs") or [])), ('fragment', u''),
+                             ('headers', odict(req.get("headers") or [])),
+                             ('body', req.get("body"))])
+            if req.get("data") is not None:
+                request['data'] = req["data"]
+            if req.get("fargs") is not None:
+                request['fargs'] = odict(req["fargs"])
+            beta.requests.append(request)
         idle = 0
-        for _ in range(max_rounds):
+        for _ in range(max_rounds * n):
             before = (len(beta.responses), sum(len(s.sent) for s in net.socks))
             alpha.serviceAll()
             beta.serviceAll()
             after = (len(beta.responses), sum(len(s.sent) for s in net.socks))
-            if beta.responses:
+            if len(beta.responses) >= n:
                 break
             idle = idle + 1 if before == after else 0
             if idle >= 12:
@@ -155,18 +165,28 @@ def run_exchange(req, resp, max_rounds=60):
             alpha.serviceAll()
     except Exception as ex:
         error = "%s: %s" % (type(ex).__name__, ex)
-    out = {"environ": seen[0] if seen else None, "calls": len(seen), "error": error, "response": None,
-           "client_rx": bytes(beta.connector.rxbs), "waited": beta.waited,
-           "request_wire": bytes(net.connections[0][0].sent) if net.connections else b'',
-           "response_wire": bytes(net.connections[0][1].sent) if net.connections else b''}
-    if beta.responses:
-        r = beta.responses[0]
-        out["response"] = {"status": r["status"], "reason": r["reason"], "version": r["version"],
-                           "headers": dict(r["headers"].items()), "body": bytes(r["body"]),
-                           "data": r["data"], "errored": r["errored"], "error": r["error"]}
+    rw = bytes(net.connections[0][0].sent) if net.connections else b''
+    ww = bytes(net.connections[0][1].sent) if net.connections else b''
+    outs = []
+    for k in range(n):
+        out = {"environ": seen[k] if k < len(seen) else None, "calls": 1 if k < len(seen) else 0,
+               "error": error, "response": None, "client_rx": bytes(beta.connector.rxbs), "waited": beta.waited,
+               "request_wire": rw, "response_wire": ww, "total_calls": len(seen)}
+        if k < len(beta.responses):
+            r = beta.responses[k]
+            out["response"] = {"status": r["status"], "reason": r["reason"], "version": r["version"],
+                               "headers": dict(r["headers"].items()), "body": bytes(r["body"]),
+                               "data": r["data"], "errored": r["errored"], "error": r["error"]}
+        outs.append(out)
     try:
         alpha.servant.closeAll()
         beta.connector.close()
     except Exception:
         pass
+    return outs
+
+
+def run_exchange(req, resp, max_rounds=60):
+    out = run_sequence([(req, resp)], max_rounds)[0]
+    out["calls"] = out["total_calls"]
     return out
